@@ -192,6 +192,13 @@ func (s *Stream) LogRequest(id string, req *http.Request) error {
 		}
 	}
 
+	if req.Body == nil {
+		// A request without a body (as built by clients): there is nothing to
+		// read and nothing to log, and the body must stay nil; a wrapper
+		// around it would panic on the first Read.
+		return nil
+	}
+
 	if req.Body == http.NoBody {
 		// http.NoBody tells net/http that the length is known to be zero; keep
 		// it (wrapping it makes e.g. a POST with Content-Length: 0 go out
@@ -229,6 +236,12 @@ func (s *Stream) LogResponse(id string, res *http.Response) error {
 		for _, v := range vs {
 			s.sendHeader(id, Response, k, v)
 		}
+	}
+
+	if res.Body == nil {
+		// No body: nothing to read and nothing to log; a wrapper around nil
+		// would panic on the first Read.
+		return nil
 	}
 
 	if res.Body == http.NoBody {
